@@ -27,6 +27,7 @@ struct arec {
     int cleared, mem_freed, book_freed;
     int unique_kind;            /* 1: owned by a unique pointer (no book) */
     int noclr;                  /* allocated without a clear callback: only the free is expected */
+    int selfweak;               /* the managed memory embeds a weak pointer to itself, reset by its clear callback */
 };
 static struct arec A[MAXA];
 static int nA;
@@ -69,6 +70,21 @@ static void sync_alloc_events(void)
     }
 }
 static void shared_clr(void *mem, void *priv) { sync_alloc_events(); on_clear_common(mem, priv, NULL); VRT_COUNT("event.clear.shared"); }
+#define EW(mem) ((cstl_weak_ptr_t *)((char *)(mem) + 8))
+/* re-entrant use the library supports: the dying object drops the weak reference it holds on itself */
+static void shared_clr_selfweak(void *mem, void *priv)
+{
+    sync_alloc_events(); on_clear_common(mem, priv, NULL);
+    cstl_weak_ptr_reset(EW(mem));
+    VRT_COUNT("event.clear.shared"); VRT_COUNT("event.clear.reentrant-weak-reset");
+}
+static int *clear_hook_count;
+static void big_clr(void *mem, void *priv)
+{
+    (void)priv;
+    if (clear_hook_count) ++*clear_hook_count;
+    *(uint32_t *)mem = CLRMAGIC;
+}
 static void unique_clr(void *mem, void *priv)
 {
     sync_alloc_events();
@@ -127,6 +143,7 @@ static void model_drop_owner(int a)
     A[a].owners--;
     if (A[a].owners == 0) {
         if (!A[a].noclr) want_add('c', A[a].mem);
+        if (A[a].selfweak) A[a].weaks--;        /* dropped inside the clear callback, before the memory goes */
         want_add('f', A[a].mem);
         A[a].cleared = 1; A[a].mem_freed = 1;
         VRT_COUNT("model.last-owner-released");
@@ -214,7 +231,7 @@ static int st_apply(uint32_t op, int do_audit)
         VRT_OP2("shared_ptr.alloc", "S%ld size=%ld", a, size);
         model_drop_owner(Sa[a]); Sa[a] = -1;
         call_begin();
-        cstl_shared_ptr_alloc(&S[a], size, (size & 1) ? NULL : shared_clr);     /* odd sizes: no clear callback */
+        cstl_shared_ptr_alloc(&S[a], size, (size & 1) ? NULL : (size % 4 == 2) ? shared_clr_selfweak : shared_clr);     /* odd sizes: no clear callback */
         call_end("shared_ptr.alloc");
         if (size > 0) {
             void *mem = cstl_shared_ptr_get(&S[a]), *book = NULL;
@@ -231,6 +248,16 @@ static int st_apply(uint32_t op, int do_audit)
             Sa[a] = x;
             VRT_COUNT("op.shared.alloc");
             if (size & 1) VRT_COUNT("op.shared.alloc.without-clear-callback");
+            if (size % 4 == 2) {
+                /* the object takes a weak reference to itself (observer / weak-self pattern) */
+                cstl_weak_ptr_init(EW(mem));
+                call_begin();
+                cstl_weak_ptr_from(EW(mem), &S[a]);
+                nwant = 0;
+                call_end("weak_ptr.from");
+                A[x].selfweak = 1; A[x].weaks++;
+                VRT_COUNT("op.shared.alloc.self-weak");
+            }
         } else {
             VRT_CHECK(cstl_shared_ptr_get(&S[a]) == NULL, "memory.alloc.zero-size-not-empty", "alloc(0) left a non-empty pointer");
             VRT_COUNT("op.shared.alloc.zero-size");
@@ -450,12 +477,12 @@ static uint64_t st_sig(void)
     for (i = 0; i < ns; i++) {
         int a = Sa[i];
         if (a >= 0 && map[a] < 0) map[a] = next++;
-        h = vrt_mix(h, a < 0 ? 0 : (1 + map[a]) * 2 + A[a].noclr);
+        h = vrt_mix(h, a < 0 ? 0 : (1 + map[a]) * 4 + A[a].noclr + 2 * A[a].selfweak);
     }
     for (i = 0; i < nw; i++) {
         int a = Wa[i];
         if (a >= 0 && map[a] < 0) map[a] = next++;
-        h = vrt_mix(h, a < 0 ? 0 : (1 + map[a]) * 2 + (A[a].owners > 0));
+        h = vrt_mix(h, a < 0 ? 0 : (1 + map[a]) * 4 + (A[a].owners > 0) + 2 * A[a].selfweak);
     }
     for (i = 0; i < nu; i++) h = vrt_mix(h, Ua[i] >= 0 ? 1 + A[Ua[i]].noclr : 0);
     return h;
@@ -475,6 +502,7 @@ static int build_alphabet(int s, int w, int u, uint32_t *al)
     for (i = 0; i < s; i++) {
         al[n++] = OP(K_SALLOC, i, 0, 24);
         al[n++] = OP(K_SALLOC, i, 0, 25);       /* odd size: no clear callback */
+        al[n++] = OP(K_SALLOC, i, 0, 26);       /* size % 4 == 2: memory holds a weak pointer to itself */
         al[n++] = OP(K_SALLOC, i, 0, 0);
         al[n++] = OP(K_SRESET, i, 0, 0);
         for (j = 0; j < s; j++) if (i != j) al[n++] = OP(K_SHARE, i, j, 0);
@@ -538,7 +566,7 @@ static void run_random(uint64_t idx)
     n = build_alphabet(NS, NW, NU, al);
     for (i = 0; i < nops; i++) {
         uint32_t op = al[vrt_below(&g, n)];
-        if (OP_K(op) == K_SALLOC && OP_C(op)) op = OP(K_SALLOC, OP_A(op), 0, 4 + vrt_below(&g, 200));      /* odd: no callback */
+        if (OP_K(op) == K_SALLOC && OP_C(op)) op = OP(K_SALLOC, OP_A(op), 0, 24 + vrt_below(&g, 200));      /* odd: no callback */
         st_apply(op, 1);
         if (nA >= MAXA - 2) break;
         vrt_sig(0, st_sig());
@@ -547,23 +575,74 @@ static void run_random(uint64_t idx)
     VRT_COUNT("random.histories");
 }
 
+/* one allocation with far more than 2^16 simultaneous owners: counters must not wrap */
+#define NBIG 70000
+static void run_big(uint64_t which)
+{
+    cstl_shared_ptr_t *X = vrt_alloc(sizeof(*X) * NBIG), first, probe;
+    cstl_weak_ptr_t w;
+    void *mem;
+    int i, cleared = 0;
+    vrt_case_note("big: one allocation shared by %d owners (%s)", NBIG, which ? "self-weak memory" : "plain");
+    clear_hook_count = &cleared;
+    cstl_shared_ptr_init(&first); cstl_shared_ptr_init(&probe); cstl_weak_ptr_init(&w);
+    VRT_OP1("shared_ptr.alloc", "size 64 (big case %ld)", which);
+    cstl_shared_ptr_alloc(&first, 64, big_clr);
+    mem = cstl_shared_ptr_get(&first);
+    VRT_CHECK(mem != NULL, "memory.big.alloc", "allocation failed");
+    *(uint32_t *)mem = MEMMAGIC;
+    cstl_weak_ptr_from(&w, &first);
+    for (i = 0; i < NBIG; i++) {
+        cstl_shared_ptr_init(&X[i]);
+        if ((i & 1023) == 0) VRT_OP1("shared_ptr.share", "owner #%ld", i);
+        cstl_shared_ptr_share(&first, &X[i]);
+        if (i >= 65530 && i <= 65540) {
+            /* around 2^16 references: still shared, still lockable, still alive */
+            VRT_CHECK(!cstl_shared_ptr_unique(&first), "memory.big.unique-with-many-owners", "unique() true with %d owners", i + 2);
+            VRT_OP1("weak_ptr.lock", "with %ld owners", i + 2);
+            cstl_weak_ptr_lock(&w, &probe);
+            VRT_CHECK(cstl_shared_ptr_get(&probe) == mem, "memory.big.lock-failed-with-many-owners", "lock reports no owner with %d owners", i + 2);
+            cstl_shared_ptr_reset(&probe);
+            VRT_CHECK(cleared == 0, "memory.big.cleared-with-owners", "memory cleared while %d owners exist", i + 2);
+        }
+    }
+    VRT_OP0("shared_ptr.reset", "first owner");
+    cstl_shared_ptr_reset(&first);
+    for (i = 0; i < NBIG; i++) {
+        if ((i & 1023) == 0) VRT_OP1("shared_ptr.reset", "owner #%ld", i);
+        VRT_CHECK(cleared == 0 && *(uint32_t *)mem == MEMMAGIC, "memory.big.cleared-with-owners", "memory cleared while %d owners exist", NBIG - i);
+        cstl_shared_ptr_reset(&X[i]);
+    }
+    VRT_CHECK(cleared == 1, "memory.big.clear-count", "clear callback ran %d times for %d owners", cleared, NBIG + 1);
+    cstl_weak_ptr_lock(&w, &probe);
+    VRT_CHECK(cstl_shared_ptr_get(&probe) == NULL, "memory.big.lock-after-death", "lock produced an owner of dead memory");
+    cstl_weak_ptr_reset(&w);
+    VRT_CHECK(vrt_lib_live() == 0, "memory.big.leak", "%zu blocks live at the end", vrt_lib_live());
+    vrt_free(X);
+    clear_hook_count = NULL;
+    VRT_COUNT("big.cases");
+    vrt_sig(0, 0xb16 + which);
+}
+#define NBIGCASES 2
 static uint64_t nrandom(void) { return vrt_thorough ? 400000 : 40000; }
 static uint64_t ncases(void)
 {
     if (vrt_thorough) { scopes = thorough_scopes; nscopes = sizeof(thorough_scopes) / sizeof(scopes[0]); }
     else { scopes = quick_scopes; nscopes = sizeof(quick_scopes) / sizeof(scopes[0]); }
-    return nscopes + nrandom();
+    return nscopes + NBIGCASES + nrandom();
 }
 static void run_case(uint64_t idx)
 {
-    if (idx < (uint64_t)nscopes) run_closure((int)idx); else run_random(idx - nscopes);
+    if (idx < (uint64_t)nscopes) run_closure((int)idx);
+    else if (idx < (uint64_t)nscopes + NBIGCASES) run_big(idx - nscopes);
+    else run_random(idx - nscopes - NBIGCASES);
 }
 static void winit(void) { (void)ncases(); vrt_sig_name(0, "ownership-states"); }
 static const char *const required[] = {
     "op.share", "op.lock.yields-owner", "op.lock.dead-yields-empty", "op.weak.reset.last-reference-after-owners",
     "op.swap.owners-of-different-allocations", "op.lock.into-last-owner-of-same", "op.share.into-owner-of-other",
     "model.last-owner-released", "model.bookkeeping-released", "event.clear.shared", "event.clear.unique",
-    "op.unique.release.owning", "closure.states", "random.histories", NULL
+    "op.unique.release.owning", "closure.states", "random.histories", "big.cases", "event.clear.reentrant-weak-reset", NULL
 };
 static const struct vrt_harness H = { "memory", ncases, run_case, winit, NULL, required, 16 };
 int main(int argc, char **argv) { return vrt_main(argc, argv, &H); }
